@@ -59,6 +59,9 @@ def check(rep, tier):
     used = 0
     for ri in range(nruns):
         cfg = fr.gen_config(rng, max_vials=36 if tier == "quick" else 150, cn=(ri % 3 == 2))
+        if ri % 8 == 1:
+            # always some flat shelves with a large random shelf variability: some draws are negative and are clipped to 0
+            cfg["shape"] = (cfg["shape"][0] + 1, cfg["shape"][1] + 1, 1); cfg["k"] = dict(cfg["k"], s_sigma_rel=1.0)
         try:
             r = fr.run(cfg)
         except Exception as e:
